@@ -517,6 +517,26 @@ func runBase(e env, b base, rngOf func(label string, i int) *mon.Rng) {
 		ex.set(ton.AccountID{Workchain: -1 - w.wc, Address: w.addr.Address}, &answer{key: w.pub})
 	}
 	rej("workchain-changed", p, b.domain)
+	// the same account part in workchains that agree with the signed one in their low bits (the signed message
+	// carries the workchain as 32 bits; a standard address holds 8): +-256*k, the unsigned reading of -1, and
+	// other widths. The key is obtainable for each of them: the executor answers for that account too, or the
+	// state-init hashes to the account part.
+	wcs := []int64{int64(w.wc) + 256, int64(w.wc) - 256, int64(w.wc) + 512, int64(w.wc) - 512, int64(w.wc) + 256*1000, int64(w.wc) - 256*(1<<23), int64(w.wc) + 256*(1<<23) - 256,
+		int64(w.wc) + 1<<16, int64(w.wc) - 1<<16, int64(w.wc) + 1<<24, int64(uint8(w.wc)) + 256*int64(rng.Intn(3)), int64(w.wc) + 128, int64(w.wc) - 128, int64(w.wc) + 1, int64(w.wc) + 256*int64(1+rng.Intn(1<<22))}
+	if w.wc == -1 {
+		wcs = append(wcs, 255, 65535, 1<<31-1)
+	}
+	for _, wc2 := range wcs {
+		if wc2 == int64(w.wc) || wc2 < math.MinInt32 || wc2 > math.MaxInt32 {
+			continue
+		}
+		p = clone(rp)
+		p.Address = fmt.Sprintf("%d:%s", wc2, hex.EncodeToString(w.raddr[:]))
+		if b.active {
+			ex.set(ton.AccountID{Workchain: int32(wc2), Address: w.addr.Address}, &answer{key: w.pub})
+		}
+		rej("workchain-changed/same-low-bits-or-other-width", p, b.domain)
+	}
 
 	d2 := b.domain + "x"
 	p = clone(rp)
@@ -768,7 +788,9 @@ func runMalformed(e env, idx int, rngOf func(label string, i int) *mon.Rng) {
 	// other spellings of the same account (user-friendly form, surrounding blanks, upper-case hex): the statement does not
 	// call them malformed; a server may refuse them or resolve them to the account. Only a crash, a rejection without an
 	// error or somebody else's key would be wrong.
-	for _, a := range []string{w.addr.ToHuman(true, false), w.addr.ToHuman(false, false), " " + w.address(), w.address() + " ", fmt.Sprintf("%d:%s", w.wc, strings.ToUpper(hx)), fmt.Sprintf("+%d:%s", w.wc, hx)} {
+	for _, a := range []string{w.addr.ToHuman(true, false), w.addr.ToHuman(false, false), " " + w.address(), w.address() + " ", fmt.Sprintf("%d:%s", w.wc, strings.ToUpper(hx)), fmt.Sprintf("+%d:%s", w.wc, hx),
+		// the account part without its leading zero digits (raw addresses are zero-filled by ton.ParseAccountID): the same account, or no address at all
+		fmt.Sprintf("%d:%s", w.wc, strings.TrimLeft(hx, "0")), fmt.Sprintf("%d:%s", w.wc, strings.TrimPrefix(hx, "00"))} {
 		if a == w.address() {
 			continue
 		}
@@ -911,7 +933,7 @@ func main() {
 		tier = os.Args[1]
 	}
 	R := mon.Start("C19", tier)
-	R.Rule = "each base = (wallet version, key source: get_public_key answer or state-init, domain, lifetimes, fresh or nearly expired timestamp/payload); a proof by tonconnect.CreateSignedProof (also judged by the reference verifier) and one by the independent reference signer must be accepted with the wallet's key; then one field is changed at a time (rejection matrix incl. signature bit flips, state-init substitutions, expiry at lifetime+60 s, payload forgeries) and must give (false, _, err); bases include wallets whose public key starts with zero byte(s) (for the wallet and for the other party, both key sources), wallets with a non-default sub-wallet number / network id, and timestamp substitutions in every byte of the 64-bit field; correctly signed proofs with far-past and negative timestamps down to the ends of the 64-bit field must be refused as expired; state-inits written by a foreign serializer with stored hashes must be accepted when the hashes are right and can never make a state-init pass for an address its content does not hash to (stored root hash replaced by the victim's address); one server shared by 16 goroutines must judge every payload and proof as a single-threaded one would; whether a wallet version outside v1r1..v5r1 is a known wallet is taken from ParseStateInit on its genuine state-init; other spellings of the right address (user-friendly form, blanks, upper case) may be accepted or refused; malformed proofs run in child processes under a panic guard; non-trivial = every CheckProof call judged; distinct = (matrix entry, version, key source) classes and distinct accepted proofs"
+	R.Rule = "each base = (wallet version, key source: get_public_key answer or state-init, domain, lifetimes, fresh or nearly expired timestamp/payload); a proof by tonconnect.CreateSignedProof (also judged by the reference verifier) and one by the independent reference signer must be accepted with the wallet's key; then one field is changed at a time (rejection matrix incl. signature bit flips, state-init substitutions, expiry at lifetime+60 s, payload forgeries) and must give (false, _, err); bases include wallets whose public key starts with zero byte(s) (for the wallet and for the other party, both key sources), wallets with a non-default sub-wallet number / network id, and timestamp substitutions in every byte of the 64-bit field; the signed account part presented in workchains that share the low 8/16/24 bits with the signed one (+-256*k, 255 for -1, ...) with the key obtainable there; correctly signed proofs with far-past and negative timestamps down to the ends of the 64-bit field must be refused as expired; state-inits written by a foreign serializer with stored hashes must be accepted when the hashes are right and can never make a state-init pass for an address its content does not hash to (stored root hash replaced by the victim's address); one server shared by 16 goroutines must judge every payload and proof as a single-threaded one would; whether a wallet version outside v1r1..v5r1 is a known wallet is taken from ParseStateInit on its genuine state-init; other spellings of the right address (user-friendly form, blanks, upper case) may be accepted or refused; malformed proofs run in child processes under a panic guard; non-trivial = every CheckProof call judged; distinct = (matrix entry, version, key source) classes and distinct accepted proofs"
 	R.Assume("reference ton_proof message and signer in harness/ref/wallet are written from the ton-connect specification; no literal network vector for ton_proof exists in the repository, so a shared misreading of that document would go unnoticed")
 	R.Assume("wallet state-inits and addresses come from the reference wallet model (validated at start-up against real address vectors)")
 	R.Assume("proof timestamps in the future are not part of the statement and are not tested")
